@@ -42,7 +42,9 @@ CONSTANTS MaxLen,        \* abstract enumeration: maximal number of characters o
           MaxMatches,    \* abstract enumeration: rows of T
           NGs,           \* abstract enumeration: numbers of capture groups of the regexp
           MCs,           \* abstract enumeration: max_count values
-          D13            \* deviation switch, see above
+          D13,           \* deviation switch, see above
+          M_AllMatches   \* mechanism switch: TRUE = every row of the engine's table is rewritten (the code);
+                         \* FALSE = the mutant "first match only when the expression text starts with an anchor"
 
 STAR == 42
 XY   == <<88, 89>>     \* the replace word of the abstract cases
@@ -72,7 +74,9 @@ RangeAt(T, G, k) == LET mi == ((k - 1) \div Len(G)) + 1
                     IN <<T[mi][2 * g + 1], T[mi][2 * g + 2]>>
 IsPresent(r) == r[1] >= 0 /\ r[2] >= 0
 AllRanges(T, G) == [k \in 1..PairCount(T, G) |-> RangeAt(T, G, k)]
-\* selected ranges, as a sequence in configured (processing) order and as a set
+\* selected ranges, as a sequence in configured (processing) order and as a set.  EVERY row of T counts: T is the
+\* engine's answer without a limit (n = -1), anchors, alternations and flags of the expression are the engine's
+\* business, not the plugin's (mechanism M_AllMatches)
 SelSeq(T, G) == SelectSeq(AllRanges(T, G), IsPresent)
 Sel(T, G) == {SelSeq(T, G)[k] : k \in 1..Len(SelSeq(T, G))}
 \* byte positions (1-based) that must not survive; S is the sequence of selected ranges
@@ -232,8 +236,11 @@ ModeSet == {[mode |-> "mask", mc |-> k, word |-> <<>>] : k \in MCs}
 \* the enumeration of the tables; "setup" is not a step of the code
 Init ==
   /\ \E v \in Values : \E ng \in NGs : \E G \in GroupLists(ng) : \E md \in ModeSet :
+       \* anch: the expression TEXT starts with ^ or \A -- which says nothing about how often it can match
+       \* (^(a)|(b): the anchor binds to the first branch only); only the mutant looks at it
+       \E an \in (IF M_AllMatches THEN {FALSE} ELSE BOOLEAN) :
          cs = [val |-> BytesOf(v), cw |-> WidthsOf(v), T |-> <<>>, G |-> G,
-               mode |-> md.mode, mc |-> md.mc, word |-> md.word, ng |-> ng]
+               mode |-> md.mode, mc |-> md.mc, word |-> md.word, ng |-> ng, anch |-> an]
   /\ pc = "setup"
   /\ mi = 1 /\ gi = 1
   /\ prevFinish = 0 /\ curStart = 0 /\ curFinish = 0
@@ -247,8 +254,12 @@ Setup ==
        /\ pc' = IF T = <<>> THEN "nomatch" ELSE "loop"     \* len(indexes) == 0 => return buf, false
   /\ UNCHANGED <<mi, gi, prevFinish, curStart, curFinish, buf, pbounds>>
 
+(* M_AllMatches: the rows maskValue walks are ALL rows of T = FindAllSubmatchIndex(value, -1): the number of matches
+   rewritten is the number of non-overlapping leftmost matches the engine finds without a limit.            *)
+WalkedRows == IF M_AllMatches \/ ~cs.anch THEN cs.T ELSE SubSeq(cs.T, 1, 1)
+
 Advance == IF gi < Len(cs.G) THEN mi' = mi /\ gi' = gi + 1 /\ pc' = "loop"
-           ELSE IF mi < Len(cs.T) THEN mi' = mi + 1 /\ gi' = 1 /\ pc' = "loop"
+           ELSE IF mi < Len(WalkedRows) THEN mi' = mi + 1 /\ gi' = 1 /\ pc' = "loop"
            ELSE mi' = mi /\ gi' = gi /\ pc' = "tail"
 
 (* one iteration of  `for _, grp := range m.Groups`  as written *)
@@ -289,7 +300,7 @@ IterRepaired ==
   /\ ~D13 /\ pc = "loop"
   /\ LET R == SortedRanges(mi) IN
        IF gi > Len(R)
-         THEN /\ (IF mi < Len(cs.T) THEN mi' = mi + 1 /\ gi' = 1 /\ pc' = "loop"
+         THEN /\ (IF mi < Len(WalkedRows) THEN mi' = mi + 1 /\ gi' = 1 /\ pc' = "loop"
                   ELSE mi' = mi /\ gi' = gi /\ pc' = "tail")
               /\ UNCHANGED <<buf, prevFinish, curStart, curFinish>>
          ELSE LET s0 == R[gi][1]
@@ -319,6 +330,8 @@ TypeOK == /\ pc \in {"setup", "loop", "tail", "done", "nomatch", "panic"}
 PanicsExactlyWhenNamed ==
   /\ pc = "panic" => D13 /\ PanicSituation(cs) # "none" /\ pbounds = PanicBounds(cs)
   /\ pc = "done" /\ D13 => PanicSituation(cs) = "none"
+\* every match the engine reported has been visited when the function returns
+AllMatchesVisited == pc = "done" => mi = Len(cs.T)
 \* (i) whenever it returns, the result is acceptable
 ReturnsAcceptable ==
   /\ pc = "done" => LeafOK(cs, buf) /\ Applied(cs, TRUE)
